@@ -117,6 +117,7 @@ unsigned fmc_oracle_mask(void) { return fmc_omask; }
 uintptr_t fmc_thread_sp(int t) { return T[t].sp; }
 uint64_t fmc_vticks(void) { return TR->vticks; }
 void fmc_count(uint64_t n) { TR->user_cases += n; }
+void fmc_add_steps(uint64_t n) { TR->steps += n; }
 
 // ---------------------------------------------------------------- TSO overlay
 static void sb_flush(struct th* t) {
@@ -693,7 +694,7 @@ static void crash_handler(int sig, siginfo_t* si, void* uc_) {
 }
 static void install_altstack(void) {
   stack_t ss;
-  ss.ss_sp = mmap(0, 65536, PROT_READ | PROT_WRITE, MAP_PRIVATE | MAP_ANONYMOUS, -1, 0);
+  ss.ss_sp = (void*)syscall(SYS_mmap, 0, 65536, PROT_READ | PROT_WRITE, MAP_PRIVATE | MAP_ANONYMOUS, -1, 0);
   ss.ss_size = 65536;
   ss.ss_flags = 0;
   sigaltstack(&ss, 0);
@@ -702,7 +703,7 @@ void fmc_child_setup(void) {
   fmc_in_child = 1;
   // descriptor numbers must be a function of the execution, not of the worker process
   syscall(SYS_close_range, 3, ~0u, 0);
-  G = mmap(0, sizeof(gran_t) * GRAN_SLOTS, PROT_READ | PROT_WRITE, MAP_PRIVATE | MAP_ANONYMOUS | MAP_NORESERVE, -1, 0);
+  G = (gran_t*)syscall(SYS_mmap, 0, sizeof(gran_t) * GRAN_SLOTS, PROT_READ | PROT_WRITE, MAP_PRIVATE | MAP_ANONYMOUS | MAP_NORESERVE, -1, 0);
   install_altstack();
   struct sigaction sa;
   memset(&sa, 0, sizeof sa);
